@@ -244,6 +244,18 @@ def ee_body(ctx, case):
         xs, ys = P().encircled_energy(np.ascontiguousarray(g(data)), fraction=f, eeDiameter=False)
         ctx.close(ys, yi, 1e-12, "encircled-energy curve invariant under %s (default centre = array middle)" % name, scale=1.0)
     # explicit centre (x = column, y = row, corner origin) placed on the single bright pixel: all energy at once
+    # explicit centres (integer, pixel-centred half-integer, generic): the curve still starts at 0, never decreases, stays <= 1
+    rr_ = gen.np_rng(int(case.get("scale", 1.0) * 1e6) % (2**31))
+    for cen in ([n // 2, n // 2], [n // 2 + 0.5, n // 2 - 0.5], [float(rr_.integers(0, n)) + 0.5, float(rr_.integers(0, n)) + 0.5], [float(rr_.uniform(0, n)), float(rr_.uniform(0, n))]):
+        xs, ys = P().encircled_energy(data, fraction=f, center=list(cen), eeDiameter=False)
+        ctx.require(ys[0] == 0 and xs[0] == 0, "encircled-energy curve with center=%r does not start at (0, 0): starts at (%r, %r)" % (cen, xs[0], ys[0]))
+        ctx.require(bool(np.all(np.diff(ys) >= -1e-12) and np.all(ys <= 1 + 1e-12)), "encircled-energy curve with center=%r decreases or exceeds 1" % (cen,))
+        dd = P().encircled_energy(data, fraction=f, center=list(cen))
+        below_, above_ = np.nonzero(ys < f)[0], np.nonzero(ys > f)[0]
+        if len(above_) or np.any(ys == f):
+            lo_ = xs[below_[-1]] if len(below_) else xs[0]
+            hi_ = xs[above_[0]] if len(above_) else xs[-1]
+            ctx.require(lo_ - 1e-12 <= dd <= hi_ + 1e-12, "encircled energy with center=%r: reported diameter %r does not bracket the crossing [%r, %r]" % (cen, dd, lo_, hi_))
     if case["kind"] == "pixel":
         r, c = [int(v) for v in np.argwhere(data > 0)[0]]
         xs, ys = P().encircled_energy(data, fraction=f, center=[c + 0.5, r + 0.5], eeDiameter=False)
